@@ -1837,25 +1837,63 @@ func tbYubiModel(c *Ctx, rule string) *tbYubi {
 		c.Unresolved(rule, "the YubiAgent parameter of ServeAgent")
 		return nil
 	}
-	// the dispatch: switch <[]byte>[0]
+	// the dispatch: switch <[]byte>[0], in ServeAgent or in a function of the package that ServeAgent hands the
+	// request to (the loop body extracted into a helper)
 	var sws []*ast.SwitchStmt
-	ast.Inspect(y.serve.Body, func(n ast.Node) bool {
-		sw, ok := n.(*ast.SwitchStmt)
-		if !ok || sw.Tag == nil {
+	findDispatch := func(fd *ast.FuncDecl) []*ast.SwitchStmt {
+		var out []*ast.SwitchStmt
+		ast.Inspect(fd.Body, func(n ast.Node) bool {
+			sw, ok := n.(*ast.SwitchStmt)
+			if !ok || sw.Tag == nil {
+				return true
+			}
+			ix, ok := tbUnparen(tbLocalDef(p, fd.Body, sw.Tag)).(*ast.IndexExpr)
+			if !ok {
+				return true
+			}
+			if k, ok := tbConstInt(p, ix.Index); !ok || k != 0 {
+				return true
+			}
+			if s, ok := p.TypesInfo.TypeOf(ix.X).Underlying().(*types.Slice); ok && tbIsBasic(s.Elem().Underlying(), types.Uint8) {
+				out = append(out, sw)
+			}
 			return true
-		}
-		ix, ok := tbUnparen(tbLocalDef(p, y.serve.Body, sw.Tag)).(*ast.IndexExpr)
-		if !ok {
+		})
+		return out
+	}
+	sws = findDispatch(y.serve)
+	if len(sws) == 0 {
+		// functions of the package called from ServeAgent's body
+		ast.Inspect(y.serve.Body, func(n ast.Node) bool {
+			call, ok := n.(*ast.CallExpr)
+			if !ok {
+				return true
+			}
+			f := tbCallee(p, call)
+			if f == nil || f.Pkg() != p.Types {
+				return true
+			}
+			hd := tbDecl(p, f)
+			if hd == nil || hd.Body == nil || len(sws) > 0 {
+				return true
+			}
+			if found := findDispatch(hd); len(found) == 1 {
+				// the helper takes over the role of the serving function: its interface parameter is the served agent
+				var ag *types.Var
+				for _, fl := range hd.Type.Params.List {
+					for _, nm := range fl.Names {
+						if v, ok := p.TypesInfo.Defs[nm].(*types.Var); ok && ag == nil && types.Identical(v.Type(), y.agent.Type()) {
+							ag = v
+						}
+					}
+				}
+				if ag != nil {
+					sws, y.serve, y.agent = found, hd, ag
+				}
+			}
 			return true
-		}
-		if k, ok := tbConstInt(p, ix.Index); !ok || k != 0 {
-			return true
-		}
-		if s, ok := p.TypesInfo.TypeOf(ix.X).Underlying().(*types.Slice); ok && tbIsBasic(s.Elem().Underlying(), types.Uint8) {
-			sws = append(sws, sw)
-		}
-		return true
-	})
+		})
+	}
 	if len(sws) != 1 {
 		c.Unresolved(rule, fmt.Sprintf("the `switch req[0]` dispatch of ServeAgent (found %d)", len(sws)))
 		return nil
